@@ -372,7 +372,7 @@ def err_item(name, e):
         cls = 'other'
     msg = '%s: %s' % (type(e).__name__, e)
     h = hashlib.sha1(msg.encode('utf-8', 'replace')).hexdigest()[:10]
-    return '(%s err %s %s %s %s)' % (name, cls, type(e).__name__, h, hx(msg[:600]))
+    return '(%s err %s %s %s %s)' % (name, cls, type(e).__name__, h, hx(msg[:4000]))
 
 
 def typestr(x):
@@ -547,12 +547,13 @@ def run_pickle(o, layout):
     if 'rec' in o:
         at = int(o['rec'][0])
         rec = ak.Record(L.Record(layout, at))
-        out.append('(in ok (val %s) (type %s))' % (value_text(ak.to_list(rec)), typestr(rec)))
+        out.append('(in ok (val %s) (type %s) (form %s))' % (value_text(ak.to_list(rec)), typestr(rec), form_json(rec.layout.array)))
 
         def f():
             s = pickle.dumps(rec, protocol=proto)
             r2 = pickle.loads(s)
-            return '(rt ok (val %s) (type %s) (cls %s) (nbytes %d))' % (value_text(ak.to_list(r2)), typestr(r2), type(r2).__name__, len(s))
+            return '(rt ok (val %s) (type %s) (form %s) (cls %s) (nbytes %d))' % (
+                value_text(ak.to_list(r2)), typestr(r2), form_json(r2.layout.array), type(r2).__name__, len(s))
         out.append(guarded('rt', f))
         return out
     a = ak.Array(arr)
